@@ -1,19 +1,41 @@
 """Correspondences beyond categorize/tokenize/parse: K-clo, K-buf, K-args,
 K-view, K-edit.  A runner is registered when its module (and Coq model)
-exists; `run` returns None for the others and the evidence says so."""
+exists.  A module that cannot even be imported against the current /repo
+(its self-checks on the implementation fail) is reported as a correspondence
+failure of that kind, never as a crash of the check."""
 import importlib
+import traceback
+
+from common import Failure, Result
 
 RUNNERS = {}
+IMPORT_ERRORS = {}
 for kind, mod in (('K-clo', 'corr_clo'), ('K-buf', 'corr_buf'), ('K-args', 'corr_args'),
                   ('K-view', 'corr_view'), ('K-edit', 'corr_edit')):
     try:
         RUNNERS[kind] = importlib.import_module(mod).run
     except ImportError:
         pass
+    except BaseException:          # noqa: self-check of the module failed on this /repo
+        IMPORT_ERRORS[kind] = traceback.format_exc()[-1500:]
 
 
 def run(kind, prop, tier):
+    if kind in IMPORT_ERRORS:
+        r = Result(kind)
+        r.evaluations = 1
+        r.fail(Failure(prop, kind, 'module self-check', {'implementation': IMPORT_ERRORS[kind]},
+                       {'model': 'the donor/fixture documents parse as recorded'},
+                       note='the correspondence module\'s own fixtures behave differently on this /repo'))
+        return r
     f = RUNNERS.get(kind)
     if f is None:
         return None
-    return f(prop, tier)
+    try:
+        return f(prop, tier)
+    except BaseException:          # noqa
+        r = Result(kind)
+        r.evaluations = 1
+        r.fail(Failure(prop, kind, 'runner crashed', {'implementation': traceback.format_exc()[-1500:]},
+                       {'model': 'runner completes'}, note='correspondence runner raised'))
+        return r
